@@ -1,7 +1,8 @@
 #!/usr/bin/env python3
 """selftest.py [names...]: both-ways test of the checkers.  For each selftest/<name>.patch: apply to /repo, confirm the
 crate still compiles and (with --tests) that the 226 baseline tests stay green, run the property's quick check, expect
-exit 1 and a VIOLATION report containing the expected key fragment, undo the change.  Writes selftest/RESULTS.json."""
+exit 1 and a VIOLATION report containing the expected key fragment (entries marked "benign": the property still holds,
+expect exit 0 and no report), undo the change.  Writes selftest/RESULTS.json."""
 import json, os, subprocess, sys
 V = "/verif"
 args = [a for a in sys.argv[1:] if not a.startswith("--")]
@@ -24,9 +25,13 @@ for e in idx:
             tests = [l for l in out.splitlines() if "test result" in l][-1:] or ["BUILD FAILED"]
         p = subprocess.run([V + "/check", e["property"], "--tier", "quick"], stdout=subprocess.PIPE, stderr=subprocess.STDOUT, text=True, cwd=V)
         lines = [l for l in p.stdout.splitlines() if l.startswith("  ")]
-        hit = p.returncode == 1 and any(e["expect"] in l for l in lines)
-        res[e["name"]] = {"property": e["property"], "exit": p.returncode, "expected_fragment": e["expect"], "caught": hit, "first_report": [l[:200] for l in lines[:2]], "baseline_tests": tests}
-        print("%-28s %s exit=%d %s %s" % (e["name"], e["property"], p.returncode, "CAUGHT" if hit else "MISSED", (tests or [""])[0][:60]))
+        if e.get("benign"):
+            # behaviour-preserving (or property-preserving) variant: the check must stay silent
+            hit = p.returncode == 0 and "VIOLATION" not in p.stdout
+        else:
+            hit = p.returncode == 1 and any(e["expect"] in l for l in lines)
+        res[e["name"]] = {"property": e["property"], "exit": p.returncode, "expected_fragment": e.get("expect"), "benign": bool(e.get("benign")), "caught": hit, "first_report": [l[:200] for l in lines[:2]], "baseline_tests": tests}
+        print("%-28s %s exit=%d %s %s" % (e["name"], e["property"], p.returncode, ("SILENT-OK" if e.get("benign") else "CAUGHT") if hit else ("FALSE-ALARM" if e.get("benign") else "MISSED"), (tests or [""])[0][:60]))
         bad += 0 if hit else 1
     finally:
         subprocess.call(["git", "-C", "/repo", "checkout", "--", "."])
